@@ -132,6 +132,22 @@ package auth
 //@   ensures @scopes-granted-only-after-exchange calls(grant) <= 1 && (calls(grant) == 1 ==> calls(exchange) == 1 && callResult(exchange, 1, 0) == nil)
 //@   ensures @failed-exchange-is-reported calls(exchange) == 1 && callResult(exchange, 1, 0) != nil ==> result != nil
 
+// GetAuthServerMetadata (since seed C15-9): the well-known locations are asked in turn through oauthex.GetAuthServerMeta
+// (the function that enforces the issuer match, PKCE and the URL checks), each with the issuer asked for; a location
+// whose document FAILED a check (or could not be fetched) ends the search with that error - it is never forgotten
+// because a later location answered "not found" - and nothing is fetched after it; "no metadata" (nil, nil: the
+// caller's legacy fallback) is reported only when every location asked answered "not found".
+//@ func GetAuthServerMetadata [C15]
+//@   track oauthex.GetAuthServerMeta as fetch
+//@   modifies *
+//@   assert at call oauthex.GetAuthServerMeta: @each-location-is-asked-for-the-issuer-asked-for $2 == issuerURL && $3 == httpClient
+//@   assert at call oauthex.GetAuthServerMeta: @nothing-is-fetched-after-a-failed-check-or-an-answer calls(fetch) == 0 || (lastResult(fetch, 1) == nil && lastResult(fetch, 0) == nil)
+//@   ensures @a-failed-check-is-reported-not-forgotten calls(fetch) >= 1 && lastResult(fetch, 1) != nil ==> result.1 != nil && result.0 == nil
+//@   ensures @the-metadata-used-is-what-the-checked-fetch-returned result.0 != nil ==> result.1 == nil && calls(fetch) >= 1 && lastResult(fetch, 1) == nil && result.0 == lastResult(fetch, 0)
+//@   ensures @no-metadata-only-when-every-location-said-not-found result.0 == nil && result.1 == nil ==> calls(fetch) == 0 || (lastResult(fetch, 1) == nil && lastResult(fetch, 0) == nil)
+//@   ensures @an-accepted-document-is-used calls(fetch) >= 1 && lastResult(fetch, 1) == nil && lastResult(fetch, 0) != nil ==> result.0 == lastResult(fetch, 0) && result.1 == nil
+//@   loop 1: invariant @every-location-so-far-said-not-found calls(fetch) == 0 || (lastResult(fetch, 1) == nil && lastResult(fetch, 0) == nil)
+
 // getProtectedResourceMetadata: every candidate location is fetched through oauthex.GetProtectedResourceMetadata (the
 // function that enforces https-or-loopback, the resource match and the URL-scheme checks) with that candidate's own
 // URL and resource and the handler's HTTP client; the document handed back is the one that function accepted for the
